@@ -145,6 +145,17 @@ func (t *TBSCertificate) SignWith(signer Certificate, curve Curve, sp SignerLamb
 		return nil, fmt.Errorf("invalid certificate")
 	}
 
+	if t.Version == Version2 {
+		// unmarshalCertificateV2 refuses anything larger, do not hand out a certificate nobody can load
+		b, err := sc.Marshal()
+		if err != nil {
+			return nil, err
+		}
+		if len(b) > MaxCertificateSize {
+			return nil, fmt.Errorf("certificate is too large: %d bytes, the maximum is %d", len(b), MaxCertificateSize)
+		}
+	}
+
 	return sc, nil
 }
 
